@@ -123,6 +123,23 @@ structure Buf (α : Type) where
   vb : List α
   deriving Repr, DecidableEq
 
+/-- the `non_empties` computation of one span: a one-entry span is decided from its two offsets, a longer one
+    is counted, an empty (or inverted) one has none -/
+def spanNonEmpties (P : Params α) (spCur spNext curI nextI : Nat) : Except Err Nat :=
+  if spNext = spCur + 1 then .ok (if nextI > curI then 1 else 0)
+  else if spNext > spCur + 1 then countNonEmpty P.idx (spNext - spCur) spCur 0
+  else .ok 0
+
+/-- the `if non_empties == 1: … elif non_empties > 1: …` block: what one span appends to `dest_values` -/
+def spanEmit (P : Params α) (spCur spNext curI nextI nonEmpties : Nat) (vb : List α) : Except Err (List α) :=
+  if nonEmpties = 1 then
+    match scanFlags P.vals P.sep P.delim (nextI - curI) curI false false with
+    | .error e => .error e
+    | .ok (comma, quotes) => emitBody P.vals P.delim P.capV (comma || quotes) curI nextI vb
+  else if nonEmpties > 1 then
+    multiLoop P.idx P.vals P.sep P.delim P.capV spCur (spNext - spCur) spCur true vb
+  else .ok vb
+
 /-- body of `for s in range(sp_start, sp_end)` up to and including `d_index_i += 1` -/
 def oneSpan (P : Params α) (s : Nat) (st : Buf α) : Except Err (Buf α) :=
   match getE P.spans s "spans[s]", getE P.spans (s + 1) "spans[s+1]" with
@@ -133,20 +150,13 @@ def oneSpan (P : Params α) (s : Nat) (st : Buf α) : Except Err (Buf α) :=
     | .error e, _ => .error e
     | .ok _, .error e => .error e
     | .ok curI, .ok nextI =>
-      match (if spNext = spCur + 1 then (.ok (if nextI > curI then 1 else 0) : Except Err Nat)
-             else if spNext > spCur + 1 then countNonEmpty P.idx (spNext - spCur) spCur 0
-             else .ok 0) with
+      match spanNonEmpties P spCur spNext curI nextI with
       | .error e => .error e
       | .ok nonEmpties =>
-        match (if nonEmpties = 1 then
-                 match scanFlags P.vals P.sep P.delim (nextI - curI) curI false false with
-                 | .error e => .error e
-                 | .ok (comma, quotes) => emitBody P.vals P.delim P.capV (comma || quotes) curI nextI st.vb
-               else if nonEmpties > 1 then
-                 multiLoop P.idx P.vals P.sep P.delim P.capV spCur (spNext - spCur) spCur true st.vb
-               else .ok st.vb) with
+        match spanEmit P spCur spNext curI nextI nonEmpties st.vb with
         | .error e => .error e
         | .ok vb' =>
+          -- `d_index_v += delta; dest_index[d_index_i] = d_index_v + dest_start_v; d_index_i += 1`
           if st.ib.length < P.capI then .ok ⟨st.ib ++ [vb'.length + P.destStartV], vb'⟩
           else .error (.oob "dest_index[d_index_i]")
 
